@@ -32,7 +32,7 @@ func init() {
 		}
 		return (v.Inputs[1] == "1.0b1" || v.Inputs[2] == "1.0b1") && strings.Contains(v.Got, `Contains("1.0b1")=true`)
 	})
-	// composer: a caret with a stable base rejects every non-stable version (a stability
+	// composer: a caret with a stable base and a non-zero major rejects every non-stable version (a stability
 	// filter), so the range is not convex: ^2 contains 2.0.1 and 2.10.1 but not 2.1-dev.
 	Register("C20-composer-caret-stability-filter", func(v *core.Violation) bool {
 		if v.Kind != "not-convex" || !strings.HasPrefix(v.Inputs[0], "^") || len(v.Inputs) != 4 {
@@ -45,6 +45,10 @@ func init() {
 		b := strings.TrimPrefix(v.Inputs[2], "v")
 		if i := strings.Index(b, "+"); i >= 0 {
 			b = b[:i]
+		}
+		// only carets with a non-zero major have the filter (^0.x is a plain interval)
+		if base == "0" || strings.HasPrefix(base, "0.") || strings.HasPrefix(base, "00") {
+			return false
 		}
 		return !composerNonStable.MatchString(base) && composerNonStable.MatchString(b)
 	})
